@@ -49,8 +49,8 @@ prop("C19", "other",
      "release >= slot) 0 <= delay <= interval, slot' <= release < slot' + interval and slot' >= slot + interval; these "
      "imply the rate bound by induction over histories. Floor division by the interval is modelled by its defining "
      "inequalities; an expression outside the linear fragment makes that rule inconclusive, never a violation. "
-     "Assumes the sleep releases exactly at ts + delay.",
-     [("C19.guard", py.policer_guard), ("C19.core", py.policer_core), ("C19.slots", pol.invariant), ("C19.noblock", py.async_never_blocks), ("C19.interval", pol.interval)])
+     "Assumes the sleep releases exactly at ts + delay. Added in rounds 6-7: the stored interval equals int(NS / rps) (linear arithmetic); no async def sleeps; a wait() inside a loop with a falling-through handler is a second slot for one request; a session without a limiter is built only when limit_rps is None or 0 (compound tests folded over sample rates).",
+     [("C19.guard", py.policer_guard), ("C19.core", py.policer_core), ("C19.slots", pol.invariant), ("C19.noblock", py.async_never_blocks), ("C19.interval", pol.interval), ("C19.once", py.wait_once)])
 
 from .rules import c04  # noqa: E402
 
@@ -92,9 +92,9 @@ prop("C06", "other",
      "built only past the accepting edge of set_next_oid for the same varbind; after the out-of-subtree marker the reply "
      "loop is not re-entered; Python: StopAsyncIteration -> StopIteration, None sentinel, empty list. Decides every "
      "clause but one: that cmp_arcs implements numeric OID order is only checked structurally (per sub-identifier)."
-     " Added in round 5: the closure of split_inclusive in cmp_arcs equals `octet & 0x80 == 0` on all 256 octets; zero-copy decoders total.",
+     " Added in round 5: the closure of split_inclusive in cmp_arcs equals `octet & 0x80 == 0` on all 256 octets; zero-copy decoders total. Added in round 7: with at least one varbind a getbulk reply ends the walk only behind a call that consumes the varbind list; the sync iterators handle only StopAsyncIteration and BlockingIOError.",
      [("C06.contain", c06.contain), ("C06.mono", c06.mono), ("C06.cont", c06.cont), ("C06.stop", c06.stop_tables),
-      ("C06.py", py.stop_mapping), ("C06.pybuf", py.bulk_buffer), ("C06.store", numrules.oid_store), ("C06.oidenc", codec.oid_text), ("C06.oidtext", codec.oid_print), ("C06.reject", c06.next_oid_rejections), ("C06.iter", py.passthrough), ("C06.sib", only(crypto.sockets_sibling, *_WALKS)), ("C06.total", codec.zero_copy_total)])
+      ("C06.py", py.stop_mapping), ("C06.pybuf", py.bulk_buffer), ("C06.itererr", py.iter_errors_propagate), ("C06.store", numrules.oid_store), ("C06.oidenc", codec.oid_text), ("C06.oidtext", codec.oid_print), ("C06.reject", c06.next_oid_rejections), ("C06.iter", py.passthrough), ("C06.sib", only(crypto.sockets_sibling, *_WALKS)), ("C06.total", codec.zero_copy_total)])
 
 prop("C05", "other",
      "Client-side premises of the walk argument (given an RFC 3416 agent): containment and continuation rules of C06, "
@@ -103,9 +103,9 @@ prop("C05", "other",
      "async send_X/recv_X pairing with the same iterator context, fetch() choosing getbulk iff bulk is allowed and never "
      "on v1. Necessary conditions only: that the walk returns exactly the MIB entries below the base, each once, is a "
      "relation between agent and client histories and is NOT decided statically."
-     " Added in round 5: zero-copy decoders total (an added OID validation ends a walk), literal INTEGER range of the GETBULK counters, session defaults set once.",
+     " Added in round 5: zero-copy decoders total (an added OID validation ends a walk), literal INTEGER range of the GETBULK counters, session defaults set once. Added in rounds 6-7: bit-field composition; the sync iterators handle only StopAsyncIteration and BlockingIOError around the socket call.",
      [("C05.contain", c06.contain), ("C05.mono", c06.mono), ("C05.cont", c06.cont), ("C05.step", c06.stop_tables),
-      ("C05.pybuf", py.bulk_buffer), ("C05.pystop", py.stop_mapping), ("C05.async", py.async_pairs), ("C05.fetch", py.fetch), ("C05.store", numrules.oid_store), ("C05.oidenc", codec.oid_text), ("C05.oidtext", codec.oid_print), ("C05.reject", c06.next_oid_rejections), ("C05.iter", only(py.passthrough, "iter__")),
+      ("C05.pybuf", py.bulk_buffer), ("C05.itererr", py.iter_errors_propagate), ("C05.pystop", py.stop_mapping), ("C05.async", py.async_pairs), ("C05.fetch", py.fetch), ("C05.store", numrules.oid_store), ("C05.oidenc", codec.oid_text), ("C05.oidtext", codec.oid_print), ("C05.reject", c06.next_oid_rejections), ("C05.iter", only(py.passthrough, "iter__")),
       ("C05.sib", only(crypto.sockets_sibling, *_WALKS)), ("C05.total", codec.zero_copy_total), ("C05.defaults", py.session_defaults), ("C05.intlit", crypto.literal_int_tlv), ("C05.hdr", codec.hdr_reject), ("C05.buf", only(numrules.c17_sites, "buf::buffer::Buffer::")), ("C05.bits", bits.compose)])
 
 from .rules import v3, c18  # noqa: E402
@@ -117,8 +117,8 @@ prop("C13", "other",
      "stamps USM and scoped PDU from the same-named session fields; new()/set_keys() localise both keys with the auth "
      "digest and the session engine id; OpRefresh is an empty GetRequest and flag_report is set exactly for it; both Python "
      "clients defer the user iff no engine id, run refresh -> set_keys(deferred user) -> clear -> refresh and call refresh() "
-     "on context entry. Behaviour over multi-step agent histories beyond these premises is NOT decided.",
-     [("C13.adopt", v3.adopt), ("C13.stamp", v3.cred), ("C13.keys", v3.keys), ("C13.probe", v3.probe), ("C13.py", py.refresh_flow), ("C13.user", only(crypto.key_ffi, "User.")), ("C13.accept", c04.accept), ("C13.enccast", codec.encoder_casts), ("C13.errprop", py.errors_propagate)])
+     "on context entry. Behaviour over multi-step agent histories beyond these premises is NOT decided. Added in round 7: a Report passes SnmpPdu::check whatever its request-id; unwrap_pdu drops a message only for the listed reasons (not for its security flags).",
+     [("C13.adopt", v3.adopt), ("C13.stamp", v3.cred), ("C13.keys", v3.keys), ("C13.probe", v3.probe), ("C13.py", py.refresh_flow), ("C13.user", only(crypto.key_ffi, "User.")), ("C13.accept", c04.accept), ("C13.enccast", codec.encoder_casts), ("C13.errprop", py.errors_propagate), ("C13.report", only(c04.pdu_check, "Report")), ("C13.reject", c04.only_listed_rejections)])
 
 prop("C10", "other",
      "Path rules on v3 unwrap_pdu/_recv_inner: delivery of a PDU must be guarded by a test of msg.usm.auth_params against "
@@ -126,8 +126,8 @@ prop("C10", "other",
      "privacy is configured (C10.priv); a failed decrypt never delivers and decrypt receives this message's data and USM "
      "(C10.dec). The first three mechanisms are absent from the code: they are recorded as known findings (a repair needs "
      "the raw datagram in unwrap_pdu and changes the SnmpSocket trait). MAC byte equality itself is not decided."
-     " Added in round 5: NoPriv::decrypt has no Ok exit; engine id / boots / time are adopted only from a message that passed the header check.",
-     [("C10", v3.c10), ("C10.accept", c04.accept), ("C10.check", c04.pdu_check), ("C10.version", c04.version_check), ("C10.py", py.refresh_flow), ("C10.keys", only(v3.keys, "always localised", "every Ok installs", "store is final", "separate digest")), ("C10.adopt", v3.adopt), ("C10.nopriv", crypto.nopriv_refuses), ("C10.dispatch", crypto.key_dispatch), ("C10.usmraw", crypto.usm_fields_raw), ("C10.flags", crypto.msg_flags_decode)])
+     " Added in round 5: NoPriv::decrypt has no Ok exit; engine id / boots / time are adopted only from a message that passed the header check. Added in rounds 6-7: the four USM OCTET STRING fields are the decoder's result on every alternative (none made up for a sequence that ended early); msgFlags has length 1; a Report in a walk step raises SnmpAuthError (never StopAsyncIteration).",
+     [("C10", v3.c10), ("C10.accept", c04.accept), ("C10.check", c04.pdu_check), ("C10.version", c04.version_check), ("C10.py", py.refresh_flow), ("C10.keys", only(v3.keys, "always localised", "every Ok installs", "store is final", "separate digest")), ("C10.adopt", v3.adopt), ("C10.nopriv", crypto.nopriv_refuses), ("C10.dispatch", crypto.key_dispatch), ("C10.usmraw", crypto.usm_fields_raw), ("C10.flags", crypto.msg_flags_decode), ("C10.report", only(c06.stop_tables, "|Report")), ("C10.exc", only(c07.exc_table, "AuthenticationFailed"))])
 
 prop("C18", "other",
      "Mechanism premises only (wall-clock behaviour is NOT decided): get_socket arms SO_RCVTIMEO with "
@@ -136,8 +136,8 @@ prop("C18", "other",
      "call of the sync client maps that to TimeoutError; the async _recv wraps the whole retry loop in "
      "wait_for(self._timeout) and remaps the asyncio timeout; sync passes int(timeout*NS), async 0. The skip loop of "
      "_recv_inner tests no deadline (C18.deadline): recorded as a known finding."
-     " Added in round 5: every received datagram reaches the decoder; _recv_inner is called only inside a closure handed to Python::allow_threads; session engine parameters are adopted only after the header check.",
-     [("C18.arm", c18.arm), ("C18.deadline", c18.deadline), ("C18.map", py.blocking_wrapped), ("C18.py", py.timeouts), ("C18.recv-once", c18.recv_loops), ("C18.skip", c04.skip_loop), ("C18.exc", only(c07.exc_table, "WouldBlock", "ConnectionRefused", "SocketError")), ("C18.adopt", only(v3.adopt, "only-when", "-source")), ("C18.gil", c18.gil_released), ("C18.reject", c04.only_listed_rejections), ("C18.core", only(py.policer_core, "BasePolicer.wait")), ("C18.pool", only(crypto.fresh_buffers, "drop", "pool", "BufferHandle")), ("C18.noblock", py.async_never_blocks), ("C18.errprop", py.errors_propagate)])
+     " Added in round 5: every received datagram reaches the decoder; _recv_inner is called only inside a closure handed to Python::allow_threads; session engine parameters are adopted only after the header check. Added in round 7: every await after loop.add_reader / add_writer stands under a try whose finally removes the registration; set_nonblocking with a constant is called by get_socket only.",
+     [("C18.arm", c18.arm), ("C18.deadline", c18.deadline), ("C18.map", py.blocking_wrapped), ("C18.py", py.timeouts), ("C18.recv-once", c18.recv_loops), ("C18.skip", c04.skip_loop), ("C18.exc", only(c07.exc_table, "WouldBlock", "ConnectionRefused", "SocketError")), ("C18.adopt", only(v3.adopt, "only-when", "-source")), ("C18.gil", c18.gil_released), ("C18.reject", c04.only_listed_rejections), ("C18.core", only(py.policer_core, "BasePolicer.wait")), ("C18.pool", only(crypto.fresh_buffers, "drop", "pool", "BufferHandle")), ("C18.noblock", py.async_never_blocks), ("C18.errprop", py.errors_propagate), ("C18.release", py.readiness_released), ("C18.mode", c18.mode_owner)])
 
 from .rules import numrules  # noqa: E402
 
@@ -201,8 +201,8 @@ prop("C02", "other",
      "casts on the decode path are widening, stored field types and the Python conversion type match the SMI type; the six "
      "big-endian folds have the canonical step (acc << 8) | octet over take(h.length) (unknown shapes: inconclusive); "
      "IpAddress octet order; no overflow site in the decoders (shared with C01)."
-     " Added in rounds 4-5: the zero-copy decoders (OID, RELATIVE-OID, OCTET STRING, Opaque, ObjectDescriptor, SEQUENCE, [n]) have no error exit; in each numeric decoder some read reaches h.length (cover observation of num); an overflow guard before `T << k` refuses only values that overflow; a RELATIVE-OID name is resolved against the preceding varbind.",
-     [("C02.dispatch", codec.dispatch), ("C02.pair", codec.pair), ("C02.extent", codec.extent), ("C02.width", codec.width), ("C02.hdr", codec.hdr_reject), ("C02.oidtext", codec.oid_print), ("C02.decrypt", only(crypto.priv_layout, "decrypt")), ("C02.textreject", codec.oid_to_text_rejections),
+     " Added in rounds 4-5: the zero-copy decoders (OID, RELATIVE-OID, OCTET STRING, Opaque, ObjectDescriptor, SEQUENCE, [n]) have no error exit; in each numeric decoder some read reaches h.length (cover observation of num); an overflow guard before `T << k` refuses only values that overflow; a RELATIVE-OID name is resolved against the preceding varbind. Added in rounds 6-7: bit fields of composed values do not overlap (bit occupancy on the MIR); the REAL decoder's first-octet table over all 256 octets; BOOLEAN / NULL / IpAddress are refused for their length only; the dispatcher itself refuses a supported (class, tag) only for lengths its decoder refuses too (cells over lengths 0..20); OCTET STRING / Opaque / ObjectDescriptor reach Python as the decoded slice, uncut.",
+     [("C02.dispatch", codec.dispatch), ("C02.displen", codec.dispatch_lengths), ("C02.pyraw", codec.py_values_raw), ("C02.pair", codec.pair), ("C02.extent", codec.extent), ("C02.width", codec.width), ("C02.hdr", codec.hdr_reject), ("C02.oidtext", codec.oid_print), ("C02.decrypt", only(crypto.priv_layout, "decrypt")), ("C02.textreject", codec.oid_to_text_rejections),
       ("C02.fold", codec.fold), ("C02.ip", codec.ipaddr), ("C02.sites", codec.hdr_contract), ("C02.shiftguard", codec.shift_guards), ("C02.tail", codec.tail_cover), ("C02.total", codec.zero_copy_total), ("C02.relbase", c07.relative_base), ("C02.capacity", codec.capacity_exits), ("C02.lenonly", codec.length_only_rejections), ("C02.bits", bits.compose), ("C02.realforms", codec.real_forms)])
 
 prop("C08", "other",
@@ -211,7 +211,7 @@ prop("C08", "other",
      "group of every arm proven within 1..127 (0..127 for one octet) from the engine's cast facts; parse errors propagate, two "
      "arcs mandatory; every panic site of both conversions discharged; OID text enters only through this conversion and a "
      "failure returns before the send. NOT decided: print(parse(s)) = s and the base-128 arithmetic of rewritten encoders."
-     " Added in rounds 4-5: overflow guards exact; the OID decoder is total.",
+     " Added in rounds 4-5: overflow guards exact; the OID decoder is total. Added in round 6: bit-field composition of sub-identifiers (occupancy of the two sides of every | / + with a shifted side is disjoint).",
      [("C08.text", codec.oid_text), ("C08.entry", codec.oid_entry), ("C08.sites", numrules.c08_sites), ("C08.print", codec.oid_print), ("C08.reject", codec.oid_text_rejections), ("C08.arcloop", codec.arc_loop_exits), ("C08.textreject", codec.oid_to_text_rejections), ("C08.handlen", crypto.hand_lengths), ("C08.shiftguard", codec.shift_guards), ("C08.total", codec.zero_copy_total), ("C08.capacity", codec.capacity_exits), ("C08.nested", crypto.nested_lengths), ("C08.bits", bits.compose)])
 
 prop("C15", "other",
@@ -219,8 +219,8 @@ prop("C15", "other",
      "shift site in SnmpInt::push_ber/decode, the OID conversions and push_tag_len (engine `num`); the length-form table of "
      "push_tag_len (short / 0x81 / 0x82 with the octets in order and ensure_size covering them); the fixed encodings (ZERO_BER, "
      "NULL_BER, EMPTY_BER, version constants) are minimal TLVs; PDU tag tables of encoder and decoder agree with RFC 3416."
-     " Added in rounds 4-5: decoded flag_* are bits 0/1/2 of the octet for all 256 values (mirror of the encoder's table); ensure_size refuses only what does not fit; push_tagged / push_tag_len write a header of at least two octets on success, also for empty contents; literal one-octet INTEGER range.",
-     [("C15.nowrap", numrules.c15_nowrap), ("C15.len", codec.length_forms), ("C15.hdr", codec.hdr_reject), ("C15.pdu", codec.pdu_tags), ("C15.oid", codec.oid_text), ("C15.nested", crypto.nested_lengths), ("C15.mirror", crypto.layout_mirror), ("C15.dec", only(codec.width, "SnmpInt")), ("C15.handlen", crypto.hand_lengths), ("C15.flags", crypto.msg_flags_decode), ("C15.msgflags", crypto.msg_flags), ("C15.tail", codec.tail_cover), ("C15.shiftguard", codec.shift_guards), ("C15.ensure", only(numrules.c17_sites, "ensure_size", "push_tag_len", "push_tagged")), ("C15.intlit", crypto.literal_int_tlv), ("C15.capacity", codec.capacity_exits), ("C15.op", crypto.op_tables), ("C15.oidtext", codec.oid_print), ("C15.enccast", codec.encoder_casts), ("C15.bits", bits.compose)])
+     " Added in rounds 4-5: decoded flag_* are bits 0/1/2 of the octet for all 256 values (mirror of the encoder's table); ensure_size refuses only what does not fit; push_tagged / push_tag_len write a header of at least two octets on success, also for empty contents; literal one-octet INTEGER range. Added in rounds 6-7: bit-field composition; encoder narrowing casts; capacity exits of value-consuming loops (unrolled iteration by iteration); a pooled buffer is reset before it returns to the pool.",
+     [("C15.nowrap", numrules.c15_nowrap), ("C15.len", codec.length_forms), ("C15.hdr", codec.hdr_reject), ("C15.pdu", codec.pdu_tags), ("C15.oid", codec.oid_text), ("C15.nested", crypto.nested_lengths), ("C15.mirror", crypto.layout_mirror), ("C15.dec", only(codec.width, "SnmpInt")), ("C15.handlen", crypto.hand_lengths), ("C15.flags", crypto.msg_flags_decode), ("C15.msgflags", crypto.msg_flags), ("C15.tail", codec.tail_cover), ("C15.shiftguard", codec.shift_guards), ("C15.ensure", only(numrules.c17_sites, "ensure_size", "push_tag_len", "push_tagged")), ("C15.intlit", crypto.literal_int_tlv), ("C15.capacity", codec.capacity_exits), ("C15.op", crypto.op_tables), ("C15.oidtext", codec.oid_print), ("C15.enccast", codec.encoder_casts), ("C15.bits", bits.compose), ("C15.pool", only(crypto.fresh_buffers, "reset-before-return"))])
 
 from .rules import crypto  # noqa: E402
 
@@ -272,10 +272,10 @@ prop("C03", "other",
      "tables; credentials of all three push_pdu derive from the same-named session fields; request id masked to 31 bits and drawn "
      "once per send; length forms; the 39 pymethods bind to the right generic/op; Python: fetch()/bulk rules, version default; no "
      "undischarged panic site on the send path."
-     " Added in round 5: a literal one-octet INTEGER `[02, 01, x as u8]` is reached only with x in 0..=127; OutOfBuffer is constructed by the buffer only; the per-session defaults (max_repetitions, allow_bulk, timeout) are stored in the constructor only.",
+     " Added in round 5: a literal one-octet INTEGER `[02, 01, x as u8]` is reached only with x in 0..=127; OutOfBuffer is constructed by the buffer only; the per-session defaults (max_repetitions, allow_bulk, timeout) are stored in the constructor only. Added in rounds 6-7: no push_ber outside SnmpInt narrows an integer; boots / time / engine id are adopted only from a message that passed the msgID / request-id check.",
      [("C03.fresh", crypto.fresh_buffers), ("C03.priv-fresh", crypto.priv_fresh), ("C03.op", crypto.op_tables), ("C03.pdu", codec.pdu_tags),
       ("C03.cred", v3.cred), ("C03.priv", v3.priv_choice), ("C03.reqid", c04.single_id), ("C03.len", codec.length_forms), ("C03.sib", crypto.sockets_sibling),
-      ("C03.keys", v3.keys), ("C03.fetch", py.fetch), ("C03.version", py_version_default), ("C03.nested", crypto.nested_lengths), ("C03.mirror", crypto.layout_mirror), ("C03.nopanic", numrules.c03_nopanic), ("C03.adopt", only(v3.adopt, "on-every-accept", "-source", "learnt-on-accept")), ("C03.msgflags", crypto.msg_flags), ("C03.oidenc", codec.oid_text), ("C03.handlen", crypto.hand_lengths), ("C03.py", py.refresh_flow), ("C03.privlayout", crypto.priv_layout), ("C03.oob", crypto.out_of_buffer_owner), ("C03.defaults", py.session_defaults), ("C03.intlit", crypto.literal_int_tlv), ("C03.chain", crypto.key_chain), ("C03.enccast", codec.encoder_casts)])
+      ("C03.keys", v3.keys), ("C03.fetch", py.fetch), ("C03.version", py_version_default), ("C03.nested", crypto.nested_lengths), ("C03.mirror", crypto.layout_mirror), ("C03.nopanic", numrules.c03_nopanic), ("C03.adopt", only(v3.adopt, "on-every-accept", "-source", "learnt-on-accept", "only-when")), ("C03.msgflags", crypto.msg_flags), ("C03.oidenc", codec.oid_text), ("C03.handlen", crypto.hand_lengths), ("C03.py", py.refresh_flow), ("C03.privlayout", crypto.priv_layout), ("C03.oob", crypto.out_of_buffer_owner), ("C03.defaults", py.session_defaults), ("C03.intlit", crypto.literal_int_tlv), ("C03.chain", crypto.key_chain), ("C03.enccast", codec.encoder_casts)])
 
 prop("C17", "proof",
      "Abstract interpretation (`num`): the type invariant pos <= MAX_SIZE of Buffer is assumed at every read of pos and proved at "
@@ -285,9 +285,9 @@ prop("C17", "proof",
      "of buf::* and of the whole send path are obligations. Structural: pos/bookmark/data written only in buf::buffer, skip() "
      "only from the two decrypts (which fill the space before reading), as_slice(n) only from recv_socket with n = recv's result; "
      "no Result of a push is dropped; send only across push_pdu's Ok edge; OutOfBuffer -> SnmpEncodeError; length-form table."
-     " Added in round 5: OutOfBuffer is raised by the buffer alone (no size estimate refuses a request).",
+     " Added in round 5: OutOfBuffer is raised by the buffer alone (no size estimate refuses a request). Added in rounds 6-7: capacity exits; a constructed element's length is measured (buf.len() - mark), never accumulated as contents + constant header size; the sync iterators let SnmpEncodeError through.",
      [("C17.sites", numrules.c17_sites), ("C17.owner", crypto.buffer_owner), ("C17.err", crypto.buffer_err), ("C17.send", crypto.fresh_buffers),
-      ("C17.len", codec.length_forms), ("C17.exc", only(c07.exc_table, "OutOfBuffer")), ("C17.priv-fresh", crypto.priv_fresh), ("C17.nested", crypto.nested_lengths), ("C17.handlen", crypto.hand_lengths), ("C17.padconst", crypto.pad_constants), ("C17.oob", crypto.out_of_buffer_owner), ("C17.privlayout", only(crypto.priv_layout, "decrypt"))])
+      ("C17.len", codec.length_forms), ("C17.exc", only(c07.exc_table, "OutOfBuffer")), ("C17.itererr", py.iter_errors_propagate), ("C17.priv-fresh", crypto.priv_fresh), ("C17.nested", crypto.nested_lengths), ("C17.handlen", crypto.hand_lengths), ("C17.padconst", crypto.pad_constants), ("C17.oob", crypto.out_of_buffer_owner), ("C17.privlayout", only(crypto.priv_layout, "decrypt"))])
 
 prop("C09", "other",
      "HMAC byte equality is NOT decided. Decided: in v3 push_pdu sign runs on every Ok path of an authenticated session with no "
@@ -297,7 +297,7 @@ prop("C09", "other",
      "64, MAC 12, key size = digest size for both aliases); canonical HMAC shape of DigestAuth::sign (tolerant) and MAC placement "
      "data[offset..offset+SS] = d2[0..SS]; the two key installers refresh the same fields and sign reads only refreshed state; "
      "engine id / keys consistency rules of C13."
-     " Added in round 5: the Python key classes store the key bytes as given (only aligned, never rewritten).",
+     " Added in round 5: the Python key classes store the key bytes as given (only aligned, never rewritten). Added in round 7: the inner hash is fed the message parameter itself - a sub-range that is not provably the whole (`[..]`, `[..len]`) is a violation, an extent re-derived from the message's own header is inconclusive.",
      [("C09.order", crypto.sign_order), ("C09.const", crypto.hmac_consts), ("C09.shape", crypto.hmac_shape), ("C09.flag", v3.cred),
       ("C09.keys", v3.keys), ("C09.adopt", v3.adopt), ("C09.accept", c04.accept), ("C09.msgflags", crypto.msg_flags), ("C09.dispatch", only(crypto.key_dispatch, "auth::", "AuthKey")), ("C09.chain", crypto.key_chain), ("C09.py", py.refresh_flow), ("C09.user", only(crypto.key_ffi, "user.")), ("C09.errprop", py.errors_propagate)])
 
@@ -319,9 +319,9 @@ prop("C12", "other",
      "_mask = value << 6, get_*_alg/get_*_key, padding of aligned keys by the privacy key's own type) agree with the Rust side; "
      "as_password = password_to_master then as_master, as_master = localize then store; canonical shapes: localize hashes key, "
      "engine id, key; password_to_master feeds exactly MEGABYTE/len whole copies and then password[..MEGABYTE%len]; the privacy key "
-     "is localised with the auth digest, the session engine id and its own key-type bits (new and set_keys).",
+     "is localised with the auth digest, the session engine id and its own key-type bits (new and set_keys). Added in rounds 6-7: key classes define no __len__ / __bool__ and privacy key classes take the key as given; the engine id keys are localised with is learnt from msgAuthoritativeEngineID; AuthKey::as_key_type refuses on type bits and key size only, never on the algorithm bits.",
      [("C12.refuse", numrules.c12_refuse), ("C12.dispatch", crypto.key_dispatch), ("C12.ffi", crypto.key_ffi), ("C12.chain", crypto.key_chain),
-      ("C12.keys", v3.keys), ("C12.const", crypto.hmac_consts), ("C12.sizes", only(crypto.key_size_guards, "util::")), ("C12.py", py.refresh_flow), ("C12.keycls", py.key_classes)])
+      ("C12.keys", v3.keys), ("C12.const", crypto.hmac_consts), ("C12.sizes", only(crypto.key_size_guards, "util::")), ("C12.py", py.refresh_flow), ("C12.keycls", py.key_classes), ("C12.engine", only(v3.adopt, "-source")), ("C12.ktreject", crypto.key_type_rejections)])
 
 prop("C14", "other",
      "Given the rules, uniqueness follows (+1 mod 2^w is injective over fewer than 2^w steps): salt_value is written only at key "
